@@ -44,56 +44,81 @@ structure AS where
 /-- the subscriber's socket thread is free to read the next message -/
 def idleSock (x : AS) : Bool := !x.sr && !x.wp && (x.tok != .hr true)
 
-def next (x : AS) : List AS :=
-  -- user threads of the subscriber: `_subscribe_remote`
-  (if !x.A then
+/-- user threads of the subscriber: `_subscribe_remote` -/
+def segSub (x : AS) : List AS :=
+  if !x.A then
     (match x.pend with
      | .none => [{ x with pend := .sub false, tok := .req }]
      | .unsub _ => [{ x with pend := .unsub true }]
      | .sub _ => [])
-   else []) ++
-  -- `_unsubscribe_remote`, last receiver
-  (if x.A then
+  else []
+
+/-- `_unsubscribe_remote`, last receiver -/
+def segUnsub (x : AS) : List AS :=
+  if x.A then
     (match x.pend with
      | .none => [{ x with A := false, pend := .unsub false, tok := .req }]
      | _ => [{ x with A := false }])
-   else []) ++
-  -- the request and its reply
-  (match x.tok with
-   | .req => (match x.pend with
+  else []
+
+/-- the request and its reply -/
+def segTok (x : AS) : List AS :=
+  match x.tok with
+  | .req => (match x.pend with
       | .sub _ => [{ x with tok := .chk1 }]
       | .unsub _ => [{ x with tok := .preRem true }]
       | .none => [])
-   | .chk1 => if x.obj = .present then [{ x with tok := .preAdd }] else [{ x with tok := .rep false }]
-   | .preAdd => [{ x with tok := .added, R := true }]
-   | .added => if x.obj = .present then [{ x with tok := .rep true }] else [{ x with tok := .preRem false }]
-   | .preRem ok => [{ x with tok := .rep ok, R := false }]
-   | .rep ok => [{ x with tok := .inD, D := x.D ++ [.Rep ok] }]
-   | .hr ok => (match x.pend with
+  | .chk1 => if x.obj = .present then [{ x with tok := .preAdd }] else [{ x with tok := .rep false }]
+  | .preAdd => [{ x with tok := .added, R := true }]
+  | .added => if x.obj = .present then [{ x with tok := .rep true }] else [{ x with tok := .preRem false }]
+  | .preRem ok => [{ x with tok := .rep ok, R := false }]
+  | .rep ok => [{ x with tok := .inD, D := x.D ++ [.Rep ok] }]
+  | .hr ok => (match x.pend with
       | .sub m =>
         if ok && m then [{ x with pend := .sub false, tok := .req }]
         else [{ x with A := x.A || ok, pend := .none, tok := .none }]
       | .unsub w => if w then [{ x with pend := .sub false, tok := .req }] else [{ x with pend := .none, tok := .none }]
       | .none => [])
-   | _ => []) ++
-  -- the subscriber's socket thread
-  (if idleSock x then
-     (match x.D with
-      | .Rep ok :: d => [{ x with tok := .hr ok, D := d }]
-      | .N :: d => [{ x with sr := true, D := d }]
-      | [] => [])
-   else []) ++
-  (if x.sr then [{ x with sr := false, A := false, pend := (match x.pend with | .sub _ => .sub true | p => p) }] else []) ++
-  (if x.wp then [{ x with wp := false, A := false }] else []) ++
-  -- threads of the publisher context: remove_rpc_object, make_rpc_object
-  (if x.obj = .present ∧ x.rm = .none then [{ x with obj := .reserved, rm := .pre }] else []) ++
-  (match x.rm with
-   | .pre => if x.R then [{ x with R := false, rm := .np }] else [{ x with rm := .post }]
-   | .np => [{ x with rm := .post, D := x.D ++ [.N] }]
-   | .post => [{ x with obj := .absent, rm := .none }]
-   | .none => []) ++
-  (if x.obj = .absent ∧ x.rm = .none then [{ x with obj := .reserved }] else []) ++
-  (if x.obj = .reserved ∧ x.rm = .none then [{ x with obj := .present }] else [])
+  | _ => []
+
+/-- the subscriber's socket thread reads the next message -/
+def segRead (x : AS) : List AS :=
+  if idleSock x then
+    (match x.D with
+     | .Rep ok :: d => [{ x with tok := .hr ok, D := d }]
+     | .N :: d => [{ x with sr := true, D := d }]
+     | [] => [])
+  else []
+
+/-- a removal notice marks a pending subscribe request -/
+def P.mark : P → P
+  | .sub _ => .sub true
+  | p => p
+
+/-- `_handle_remote_signal_removed` -/
+def segSr (x : AS) : List AS :=
+  if x.sr then [{ x with sr := false, A := false, pend := x.pend.mark }] else []
+
+/-- the left-over `handle_peer_context_removed` -/
+def segWp (x : AS) : List AS := if x.wp then [{ x with wp := false, A := false }] else []
+
+/-- `remove_rpc_object` begins -/
+def segMark (x : AS) : List AS := if x.obj = .present ∧ x.rm = .none then [{ x with obj := .reserved, rm := .pre }] else []
+
+/-- the remover thread -/
+def segRm (x : AS) : List AS :=
+  match x.rm with
+  | .pre => if x.R then [{ x with R := false, rm := .np }] else [{ x with rm := .post }]
+  | .np => [{ x with rm := .post, D := x.D ++ [.N] }]
+  | .post => [{ x with obj := .absent, rm := .none }]
+  | .none => []
+
+/-- `make_rpc_object` -/
+def segReserve (x : AS) : List AS := if x.obj = .absent ∧ x.rm = .none then [{ x with obj := .reserved }] else []
+def segRegister (x : AS) : List AS := if x.obj = .reserved ∧ x.rm = .none then [{ x with obj := .present }] else []
+
+def next (x : AS) : List AS :=
+  segSub x ++ segUnsub x ++ segTok x ++ segRead x ++ segSr x ++ segWp x ++ segMark x ++ segRm x ++ segReserve x ++ segRegister x
 
 /-- nothing of the protocol is in flight -/
 def settled (x : AS) : Bool :=
